@@ -1220,7 +1220,7 @@ func condOp(lhs, rhs V, op ast.Op) (any, ast.DType, error) {
 			if dtype == ast.Float {
 				return cast.ToFloat64(lhs.V) == cast.ToFloat64(rhs.V), ast.Bool, nil
 			}
-			return cast.ToFloat64(lhs.V) == cast.ToFloat64(rhs.V), ast.Bool, nil
+			return cast.ToInt64(lhs.V) == cast.ToInt64(rhs.V), ast.Bool, nil
 		case ast.String:
 			if rhs.T != ast.String {
 				return false, ast.Bool, nil
@@ -1247,7 +1247,7 @@ func condOp(lhs, rhs V, op ast.Op) (any, ast.DType, error) {
 			if dtype == ast.Float {
 				return cast.ToFloat64(lhs.V) != cast.ToFloat64(rhs.V), ast.Bool, nil
 			}
-			return cast.ToFloat64(lhs.V) != cast.ToFloat64(rhs.V), ast.Bool, nil
+			return cast.ToInt64(lhs.V) != cast.ToInt64(rhs.V), ast.Bool, nil
 		case ast.String:
 			if rhs.T != ast.String {
 				return true, ast.Bool, nil
